@@ -22,13 +22,15 @@ def run(tier):
     c.builds_done()
     plan = [("G(0..4) x F", [["--n", n, "--alpha", "F"] for n in range(0, 5)]),
             ("G(6) x F, m <= 6, containing a 6-cycle (all labelled hexagons), default and reversed edge orientation", [["--n", 6, "--alpha", "F", "--max-m", 6, "--need-cycle-len", 6], ["--n", 6, "--alpha", "F", "--max-m", 6, "--need-cycle-len", 6, "--orient", 1]]),
+            ("near ties at the small end of the range (N3 = {0.001, 0.002, 0.002+4e-10}, N4 = N3 + {0.003+8e-10}: routes differ by 4e-10 absolute = 1e-7 relative, a hundred times the tolerance): G(0..4) x N3, G(4) x N4 in three edge orientations, G(5) x N3 with at most 6 edges",
+             [["--n", n, "--alpha", "N3"] for n in range(2, 5)] + [["--n", 4, "--alpha", "N4", "--orient", o] for o in (0, 1, 2)] + [["--n", 5, "--alpha", "N3", "--max-m", 6]]),
             ("G(4) x F reversed / alternating orientation", [["--n", 4, "--alpha", "F", "--orient", 1], ["--n", 4, "--alpha", "F", "--orient", 2]]),
             ("G(5) x F", [["--n", 5, "--alpha", "F"]]),
             ("dense graphs (support vectors with >= |V| entries) K6, K7, K8, K6/K7 + pendant vertex, wheels, K3,4 x menu T97x150 (150 pseudo-random weightings in 0.1..9.7), signed and FVS variants, sequential and TBB (the ISO variants are excluded here: their recorded finding is identified input by input on the G(n) x F rows)",
              [["--families", "K:6,K:7,K:8,Kp:6:1,Kp:7:1,wheel:6,wheel:7,wheel:8,Kb:3:4", "--alpha", "T97x150", "--variants", "signed,signed_tbb,fvs,fvs_tbb"]]),
             ("G(6) x F, m <= 7, containing a cycle of >= 5 edges, sequential signed+fvs variants", [["--n", 6, "--alpha", "F", "--max-m", 7, "--need-cycle-len", 5, "--variants", "signed,fvs"]])]
     if tier == "thorough":
-        plan += [("G(4) x F4", [["--n", 4, "--alpha", "F4"]]),
+        plan += [("G(5) x N3 (near ties at the small end of the range)", [["--n", 5, "--alpha", "N3"]]), ("G(4) x F4", [["--n", 4, "--alpha", "F4"]]),
                  ("G(6) x F, m <= 7, containing a cycle of >= 5 edges, TBB signed+fvs variants", [["--n", 6, "--alpha", "F", "--max-m", 7, "--need-cycle-len", 5, "--variants", "signed_tbb,fvs_tbb"]]),
                  ("G(6) x F, m <= 8, containing a cycle of >= 5 edges", [["--n", 6, "--alpha", "F", "--max-m", 8, "--need-cycle-len", 5]]),
                  ("G(5) x F4", [["--n", 5, "--alpha", "F4"]])]
